@@ -4,9 +4,18 @@ import json, os, subprocess
 def run(prop, tier, seed, here, repo, env, scratch):
     out = os.path.join(scratch, "asmvc.json")
     timeout = "60" if tier == "quick" else "300"
-    cmd = ["python3-vt", os.path.join(here, "asmvc", "main.py"), "--repo", repo, "--out", out, "--timeout", timeout,
+    cmd = ["python3-vt", os.path.join(here, "asmvc", "main.py"), "--repo", repo, "--out", out, "--timeout", timeout, "--prop", prop,
            "--scratch", os.path.join(scratch, "asm")]
     os.makedirs(os.path.join(scratch, "asm"), exist_ok=True)
+    resid = {}
+    try:
+        resid = json.load(open(os.path.join(here, "residuals.json")))
+    except Exception:
+        pass
+    if tier == "quick" and resid.get(prop):
+        sk = os.path.join(scratch, "asm_skip.json")
+        json.dump([x for x in resid.get(prop, []) if x.startswith("asmvc/")], open(sk, "w"))
+        cmd += ["--skip", sk]
     r = subprocess.run(cmd, env=env, capture_output=True, text=True)
     try:
         res = json.load(open(out))
